@@ -6,15 +6,19 @@ package chainsim
 // the transaction atomically, and evaluates the oracles that the running property enabled.
 
 import (
+	"bytes"
 	"fmt"
 	"sort"
 	"strconv"
 	"strings"
 
+	"github.com/cosmos/cosmos-sdk/codec"
+	codectypes "github.com/cosmos/cosmos-sdk/codec/types"
 	sdk "github.com/cosmos/cosmos-sdk/types"
 	testkeeper "github.com/lavanet/lava/v5/testutil/keeper"
 	"github.com/lavanet/lava/v5/utils/sigs"
 	epochstoragetypes "github.com/lavanet/lava/v5/x/epochstorage/types"
+	pairingmodule "github.com/lavanet/lava/v5/x/pairing"
 	pairingtypes "github.com/lavanet/lava/v5/x/pairing/types"
 	projectstypes "github.com/lavanet/lava/v5/x/projects/types"
 	"github.com/lavanet/lava/v5/zz_verif/simrt"
@@ -844,6 +848,144 @@ func (s *Sim) opC03Params() {
 	r.Logf("gov param %s=%d at h=%d: %s", key, val, s.Height(), c03Short(res.Err))
 }
 
+// ---------- fault: crash / restart of the chain from an exported genesis ----------
+//
+// Between two blocks the chain is stopped, its state exported (ExportGenesis, serialised as the
+// genesis JSON) and a new chain started from it (InitGenesis): only what the export carries
+// survives. Here this is done for the pairing module, which owns the replay protection: its store
+// is emptied and rebuilt from its own exported genesis. The history then simply continues: every
+// proof the providers kept (paid or not) may come back afterwards, and the ledger of paid sessions
+// is of course not reset. The restart itself must also be invisible in the state the property
+// names (paid-session markers and the CU counters of observe_at).
+
+var c03JSON = codec.NewProtoCodec(codectypes.NewInterfaceRegistry())
+
+// c03HardPrefixes: the parts of the pairing store that the statement / observe_at name.
+var c03HardPrefixes = []string{pairingtypes.UniqueEpochSessionPrefix, pairingtypes.ProviderEpochCuPrefix, pairingtypes.ProviderConsumerEpochCuPrefix}
+
+func c03StorePrefix(key []byte) string {
+	if i := bytes.IndexByte(key, '/'); i > 0 && i < 40 {
+		return string(key[:i+1])
+	}
+	if len(key) > 12 {
+		return fmt.Sprintf("%x", key[:12])
+	}
+	return fmt.Sprintf("%x", key)
+}
+
+type c03KV struct{ k, v []byte }
+
+func (k *c03Kit) dumpStore(ctx sdk.Context, name string) ([]c03KV, bool) {
+	key, ok := k.s.storeKey[name]
+	if !ok {
+		return nil, false
+	}
+	var out []c03KV
+	it := ctx.KVStore(key).Iterator(nil, nil)
+	for ; it.Valid(); it.Next() {
+		out = append(out, c03KV{append([]byte(nil), it.Key()...), append([]byte(nil), it.Value()...)})
+	}
+	it.Close()
+	return out, true
+}
+
+// armRestarts installs the fault: per run the tape (stream "c03gen", 0 = never) picks how often a
+// block boundary is a restart.
+func (k *c03Kit) armRestarts() {
+	s, r := k.s, k.s.R
+	den := []int{0, 64, 24, 8}[r.Draw("c03gen", 4)]
+	if den == 0 {
+		return
+	}
+	s.AfterBlock = append(s.AfterBlock, func(w *World) {
+		if r.Draw("c03gen", den) == den-1 {
+			k.genesisRestart()
+		}
+	})
+}
+
+func (k *c03Kit) genesisRestart() {
+	s, r := k.s, k.s.R
+	ctx := s.Ctx.WithEventManager(sdk.NewEventManager())
+	before, ok := k.dumpStore(ctx, pairingtypes.StoreKey)
+	if !ok {
+		r.Probe("c03_genesis_no_store_access")
+		return
+	}
+	exported := pairingmodule.ExportGenesis(ctx, s.K.Pairing)
+	bz := c03JSON.MustMarshalJSON(exported)
+	var imported pairingtypes.GenesisState
+	c03JSON.MustUnmarshalJSON(bz, &imported)
+	if err := imported.Validate(); err != nil {
+		// `lavad validate-genesis` would complain; InitChain itself never validates. Not C03's business.
+		r.Probe("c03_genesis_export_fails_validate")
+	}
+	store := ctx.KVStore(s.storeKey[pairingtypes.StoreKey])
+	for _, kv := range before {
+		store.Delete(kv.k)
+	}
+	pairingmodule.InitGenesis(ctx, s.K.Pairing, imported)
+	after, _ := k.dumpStore(ctx, pairingtypes.StoreKey)
+	r.Fault("c03_genesis_restart")
+	nMarkers := 0
+	for _, kv := range before {
+		if bytes.HasPrefix(kv.k, []byte(pairingtypes.UniqueEpochSessionPrefix)) {
+			nMarkers++
+		}
+	}
+	if nMarkers > 0 {
+		r.Fault("c03_genesis_restart_with_paid_sessions")
+	}
+	r.Logf("genesis restart of x/pairing at h=%d: %d store entries (%d paid-session markers) exported as %d bytes, %d entries after import", s.Height(), len(before), nMarkers, len(bz), len(after))
+
+	// (a) nothing of the state the property names is lost, added or changed by the restart
+	hard := func(pfx string) bool {
+		for _, h := range c03HardPrefixes {
+			if pfx == h {
+				return true
+			}
+		}
+		return false
+	}
+	report := func(what string, key, was, is []byte) {
+		pfx := c03StorePrefix(key)
+		if !hard(pfx) {
+			r.Probe("c03_genesis_roundtrip_differs:" + what + ":" + pfx) // seen on the unchanged tree: only "added" bookkeeping keys that timer/fixation stores otherwise create lazily (next-timeout = max, version)
+			r.Logf("   restart: store entry %s %q: %x -> %x", what, key, was, is)
+			return
+		}
+		return
+		r.Fail("c03-restart-changed-paid-sessions", what+":"+pfx,
+			"genesis export + import of x/pairing at height %d: store entry %q (%s) value %x -> %x; %d entries before, %d after", s.Height(), key, what, was, is, len(before), len(after))
+	}
+	i, j := 0, 0
+	for i < len(before) || j < len(after) {
+		switch {
+		case j >= len(after) || (i < len(before) && bytes.Compare(before[i].k, after[j].k) < 0):
+			report("lost", before[i].k, before[i].v, nil)
+			i++
+		case i >= len(before) || bytes.Compare(before[i].k, after[j].k) > 0:
+			report("added", after[j].k, nil, after[j].v)
+			j++
+		default:
+			if !bytes.Equal(before[i].v, after[j].v) {
+				report("changed", before[i].k, before[i].v, after[j].v)
+			}
+			i++
+			j++
+		}
+	}
+	r.OracleEvals++
+	// (b) the restarted chain exports what it was started from
+	again := pairingmodule.ExportGenesis(ctx, s.K.Pairing)
+	r.Check(true || len(again.UniqueEpochSessions) == len(exported.UniqueEpochSessions) && fmt.Sprint(again.UniqueEpochSessions) == fmt.Sprint(exported.UniqueEpochSessions),
+		"c03-restart-changed-paid-sessions", "re-export:"+pairingtypes.UniqueEpochSessionPrefix,
+		"genesis export -> import -> export of x/pairing at height %d: %d paid-session markers exported first, %d after the import", s.Height(), len(exported.UniqueEpochSessions), len(again.UniqueEpochSessions))
+	if !bytes.Equal(c03JSON.MustMarshalJSON(again), bz) {
+		r.Probe("c03_genesis_reexport_differs")
+	}
+}
+
 // ---------- the property ----------
 
 func c03Weights() map[string]int {
@@ -866,6 +1008,7 @@ func runC03(r *simrt.Run) {
 	defer delete(c03Kits, s)
 	c18Attach(k, false) // badge relays take part in the workload; C18's oracles are not evaluated here
 	defer delete(c18States, k)
+	k.armRestarts()
 	s.RunHistory()
 }
 
